@@ -47,6 +47,13 @@ def run(rep, repo, tier):
     E = Effects(repo)
     solve = repo.method('Solver', 'solve')
     getters = [repo.method('Solver', g) for g in GETTERS]
+    # ---- R2 (function defaults): a default list / dict that a function of the solve or getter path fills is shared by all calls --
+    from ..lints import mutable_default_mutations
+    for f in sorted(E.reachable([solve] + getters), key=lambda x: x.where):
+        for name, line, how in mutable_default_mutations(f):
+            rep.fail('C18.R2', f.where, 'nothing is accumulated across calls: a function on the solve / getter path does not fill a default argument',
+                     got='%s fills its default argument %s (%s): created once, shared by every later call' % (f.name, name, how), want='a new container per call',
+                     construct='mutable default argument %s of %s' % (name, f.name), loc='%s:%d' % (f.relpath, line))
     # ---- R1 -------------------------------------------------------------------------------------------------------
     sreach0 = E.reachable([solve])
     for g in getters:
